@@ -149,6 +149,15 @@ def tf (b : Bool) : String := if b then "true" else "false"
 def doCmp (k1 : Nat) (v1 : Int) (k2 : Nat) (v2 : Int) : String :=
   s!"eq={tf (k1 == k2)} ne={tf (k1 != k2)} lt={tf (v1 < v2)} le={tf (v1 ≤ v2)} gt={tf (v1 > v2)} ge={tf (v1 ≥ v2)} cmp={showOrd v1 v2} pcmp=Some({showOrd v1 v2})"
 
+def showOrdering : Ordering → String
+  | .lt => "Less" | .eq => "Equal" | .gt => "Greater"
+/-- `Edge` comparison through the model's `edgeEq` / `edgeCmp` -/
+def doEcmp (directed : Bool) (a b : Nat × Nat × Nat) : String :=
+  let a' : Nat × Nat × Int := (a.1, a.2.1, (a.2.2 : Int))
+  let b' : Nat × Nat × Int := (b.1, b.2.1, (b.2.2 : Int))
+  let c := edgeCmp a' b'
+  s!"eq={tf (edgeEq directed a' b')} ne={tf (!edgeEq directed a' b')} lt={tf (c == .lt)} le={tf (c != .gt)} gt={tf (c == .gt)} ge={tf (c != .lt)} cmp={showOrdering c} pcmp=Some({showOrdering c})"
+
 /-! ### containers -/
 
 def getG (st : St) (i : Nat) : Cont Nat :=
@@ -246,6 +255,9 @@ def contReq (st : St) (toks : List String) : St × String :=
   let args := toks.filter (fun t => !(t.startsWith "@"))
   match args with
   | ["g.new", i] => match i.toNat? with
+    | some i => (setG st i {}, "ok")
+    | none => (st, "bad-op")
+  | ["g.newcap", i, _n] => match i.toNat? with
     | some i => (setG st i {}, "ok")
     | none => (st, "bad-op")
   | ["g.insert", i, k] => match i.toNat?, k.toNat? with
@@ -686,6 +698,15 @@ def step (st : St) (line : String) : St × String :=
   | ["cmp", k1, v1, k2, v2] => match k1.toNat?, v1.toInt?, k2.toNat?, v2.toInt? with
     | some k1, some v1, some k2, some v2 => (st, doCmp k1 v1 k2 v2)
     | _, _, _, _ => (st, "bad-op")
+  | ["ecmp", u, i, v, j] => match u.toNat?, i.toNat?, v.toNat?, j.toNat? with
+    | some u, some i, some v, some j =>
+      match (iterAdj st u)[i]?, (iterAdj st v)[j]? with
+      | some (t1, e1), some (t2, e2) => if st.fl == "sdi" then (st, "unsupported") else (st, doEcmp st.directed (u, t1, e1) (v, t2, e2))
+      | _, _ => (st, "none")
+    | _, _, _, _ => (st, "bad-op")
+  | ["nv", u] => match u.toNat? with
+    | some u => (st, s!"key={u} val={nodeVal st u} deref={nodeVal st u}")
+    | none => (st, "bad-op")
   | "conc" :: rest => doConc st ("conc" :: rest)
   | t :: rest => if t.startsWith "g." then contReq st (t :: rest) else if t.startsWith "own." then ownReq st (t :: rest) else (st, "bad-op")
   | _ => (st, "bad-op")
